@@ -32,8 +32,10 @@ def modes(f, shard):
                 continue  # the library's dictionaries have no place for block descriptors
             yield m
     if f.name in ("getlbastatus", "reportluns", "reporttargetportgroups", "readelementstatus", "inquiry.vpd83"):
-        for n in (0, 1, 2, 3, 5, 15, 16, 17, 31, 32, 33, 255, 256, 257):
+        for n in (0, 1, 2, 3, 5, 15, 16, 17, 31, 32, 33, 255, 256, 257, 511, 512, 513, 1024):
             if n > 33 and f.name == "readelementstatus":
+                continue
+            if n > 257 and f.name not in ("reportluns", "getlbastatus"):
                 continue
             yield ("count", n, 0) if f.name == "reporttargetportgroups" else ("count", n)
             if f.name == "reporttargetportgroups":
@@ -106,6 +108,9 @@ def rmw_sites(f, v, b):
     return out
 
 
+HELD = []
+
+
 def scribble_all(x):
     """like scribble(), and integer leaves too (a caller editing the result it was given)"""
     n = scribble(x)
@@ -121,6 +126,68 @@ def scribble_all(x):
             if isinstance(v, (dict, list)):
                 n += scribble_all(v)
     return n
+
+
+def break_dictionary(d, rng):
+    """a copy of d that a builder is likely to reject part-way: a nested key removed, or a value of the wrong kind"""
+    import copy
+
+    d = copy.deepcopy(d)
+    spots = []
+
+    def walk(x):
+        if isinstance(x, dict):
+            for k, v in x.items():
+                spots.append((x, k))
+                walk(v)
+        elif isinstance(x, list):
+            for v in x:
+                walk(v)
+
+    walk(d)
+    if not spots:
+        return None
+    for _ in range(rng.choice([1, 1, 2])):
+        holder, k = rng.choice(spots)
+        if k not in holder:
+            continue
+        how = rng.choice(["delete", "none", "text", "object"])
+        if how == "delete":
+            del holder[k]
+        else:
+            holder[k] = {"none": None, "text": "not a number", "object": object()}[how]
+    return d
+
+
+def rejected_builds_in_between(ctx, f, d, rng, wit):
+    """builds that the library rejects part-way (a group without its ports, a value that is no number) leave nothing behind
+    for the next, valid build"""
+    import copy
+
+    try:
+        want = bytes(f.lib_build(copy.deepcopy(d)))
+    except Exception:  # noqa: BLE001
+        return
+    rejected = 0
+    for _ in range(3):
+        bad = break_dictionary(d, rng)
+        if bad is None:
+            return
+        try:
+            f.lib_build(bad)
+        except Exception:  # noqa: BLE001
+            rejected += 1
+    if not rejected:
+        return
+    ctx.count("valid_builds_after_rejected_ones")
+    try:
+        got = bytes(f.lib_build(copy.deepcopy(d)))
+    except Exception as e:  # noqa: BLE001
+        ctx.fail("C06:%s.build_after_rejected_build_raises.%s" % (f.name, type(e).__name__), "a valid build raised after %d rejected ones" % rejected, wit, exc=e)
+        return
+    if got != want:
+        ctx.fail("C06:%s.build_depends_on_rejected_build" % f.name, "%s: the same valid dictionary builds %s... after %d rejected builds, %s... before (%s)"
+                 % (f.name, got[:16].hex(), rejected, want[:16].hex(), diff_hex(got, want)), wit)
 
 
 def built_bytes_are_private(ctx, f, d, wit):
@@ -217,6 +284,7 @@ def run(shard, ctx):
             built = None
         if built is not None:
             built_bytes_are_private(ctx, f, d, wit)
+            rejected_builds_in_between(ctx, f, d, rng, wit)
             try:
                 back = f.lib_decode(built, v)
                 seen = set()
@@ -233,6 +301,14 @@ def run(shard, ctx):
         ctx.case((f.name, "parse-build", bytes(b)), nt)
         try:
             parsed = f.lib_decode(b, v)
+            # what the previous parses returned is still what it was
+            for old, was in HELD:
+                if repr(old) != was:
+                    ctx.fail("C06:%s.earlier_parse_result_changed" % f.name, "%s: the dictionary an earlier parse returned changed when another response was parsed" % f.name, wit)
+                    del HELD[:]
+                    break
+            HELD.append((parsed, repr(parsed)))
+            del HELD[:-3]
             rebuilt = f.lib_build(copy.deepcopy(parsed))
         except Exception as e:  # noqa: BLE001
             ctx.fail("C06:%s.build_of_parse_raises.%s" % (f.name, type(e).__name__), "%s: marshall(unmarshall(b)) raised %s: %s" % (f.name, type(e).__name__, e), wit, exc=e)
